@@ -22,7 +22,7 @@ def check(run):
                 "outcomes 404/409/429/500; each replayed on the real terminator and eviction queue; non-trivial = the real trace "
                 "contains an eviction or a direct pod delete issued by Karpenter")
     thorough = run.tier == "thorough"
-    models = ["Drain_MC.cfg", "Drain_MCdl.cfg"] + (["Drain_MCbig.cfg", "Drain_Live.cfg"] if thorough else [])
+    models = ["Drain_MC.cfg", "Drain_MCdl.cfg"] + (["Drain_MCbig.cfg", "Drain_MCdlbig.cfg", "Drain_Live.cfg"] if thorough else [])
     tc.parallel_tlc(run, "Drain", models, WEAK, coverage=thorough, workers=6 if thorough else 4)
     behs = tc.generate(run, NSIM[run.tier][0], NSIM[run.tier][1], with_term_sys=thorough, with_drain_sys=True)
     files = tc.record(run, behs)
